@@ -70,7 +70,7 @@ fn run_case(c: &Case, st: &mut Stats) -> Result<(), Violation> {
                 p.push(WOp::WriteCol(Val::Bytes(pattern_bytes(*l, i))));
             }
             p.push(WOp::EndRow);
-            p.push(WOp::WriteRow((0..lens.len()).map(|i| Val::Bytes(vec![b'a' + i as u8])).collect()));
+            p.push(WOp::WriteRow((0..lens.len()).map(|i| Val::Bytes(vec![b'a'.wrapping_add(i as u8)])).collect()));
             p.push(WOp::Finish);
             (vec![q(b"big"), ping()], p)
         }
@@ -156,7 +156,7 @@ fn run_case(c: &Case, st: &mut Stats) -> Result<(), Violation> {
                 if rows[0][i] != Cell::Text(pattern_bytes(*l, i)) {
                     return Err(Violation::new("value-differs", format!("{}: cell {} of {} bytes arrives changed", c.label, i, l)));
                 }
-                if rows[1][i] != Cell::Text(vec![b'a' + i as u8]) {
+                if rows[1][i] != Cell::Text(vec![b'a'.wrapping_add(i as u8)]) {
                     return Err(Violation::new("following-row-differs", format!("{}: the row after the large one arrives changed", c.label)));
                 }
             }
@@ -233,6 +233,15 @@ fn cases(quick: bool) -> Vec<Case> {
             // three cells that together cross the limit, each well below it
             let third = k * MAXP / 3;
             v.push(Case { label: format!("text row, three cells of a third of the limit each (+5) ({}, k={})", capname, k), shape: Shape::TextCells(vec![third, third, third + 5]), msg_len: 3 * 4 + 3 * third + 5, write_cap: *cap });
+        }
+        // a row assembled from very many small writes: the packet limit falls at different offsets
+        // of a cell (inside its one-byte length prefix, inside its data) as the cell size varies
+        if *cap == usize::MAX {
+            for w in if quick { vec![239usize, 240, 241, 1021] } else { vec![238, 239, 240, 241, 242, 250, 251, 252, 1021, 65535] } {
+                let n = MAXP / (w + if w < 251 { 1 } else { 3 }) + 40;
+                let per = w + if w < 251 { 1 } else { 3 };
+                v.push(Case { label: format!("text row of {} cells of {} bytes each ({})", n, w, capname), shape: Shape::TextCells(vec![w; n]), msg_len: n * per, write_cap: *cap });
+            }
         }
         // large ERR message and column name
         for d in if quick { vec![0i64] } else { vec![-1i64, 0, 1] } {
@@ -387,7 +396,7 @@ pub fn build(quick: bool) -> Check {
     Check {
         id: "C04",
         level: "model_checking",
-        rule: format!("{} large-message scenarios on the real run_on: logical messages of k*(2^24-1)+d bytes (k in {{1{}}}, d in [-6,6]) as a one-cell text row and as a binary row; two-cell rows with the packet limit falling -1..4 bytes into the second cell (inside its 3-byte length prefix, exactly between the cells, in its data); a one-byte cell straddling the limit; three cells each far below the limit; ERR messages and a column name beyond 2^24 bytes; each under whole, 1 MiB and 65537-byte transport writes, followed by a small row and a sentinel PING. Plus every cell length 0..70000, and cells of 2^15..2^20+1 bytes alone and after 270 / 1500 small rows. Oracle: every header length equals the bytes that follow; the message is cut into floor(L/(2^24-1)) maximal packets plus one shorter (possibly empty) packet; consecutive sequence ids; strict decode returns exactly the bytes written. Non-trivial = message of at least 2^24-1 bytes.", n, ",2"),
+        rule: format!("{} large-message scenarios on the real run_on: logical messages of k*(2^24-1)+d bytes (k in {{1{}}}, d in [-6,6]) as a one-cell text row and as a binary row; two-cell rows with the packet limit falling -1..4 bytes into the second cell (inside its 3-byte length prefix, exactly between the cells, in its data); a one-byte cell straddling the limit; three cells each far below the limit; rows of ~70000 / ~16000 small cells (239..241, 1021 bytes; more sizes in thorough) so that the limit falls at varying offsets of a cell; ERR messages and a column name beyond 2^24 bytes; each under whole, 1 MiB and 65537-byte transport writes, followed by a small row and a sentinel PING. Plus every cell length 0..70000, and cells of 2^15..2^20+1 bytes alone and after 270 / 1500 small rows. Oracle: every header length equals the bytes that follow; the message is cut into floor(L/(2^24-1)) maximal packets plus one shorter (possibly empty) packet; consecutive sequence ids; strict decode returns exactly the bytes written. Non-trivial = message of at least 2^24-1 bytes.", n, ",2"),
         assumptions: vec!["message sizes are explored in a window around the packet limit, not exhaustively between 70000 and 2^24-7".into()],
         bounds: json!({"k": 2, "d_window": 6, "scenarios": n}),
         exhaustive: true,
